@@ -1,4 +1,4 @@
-import UvModel.Lemmas.AsyncLemmas4
+import UvModel.Lemmas.AsyncLemmas5
 import UvModel.Generated.AsyncSeq
 /-! # C09 — uv_async_send: property theorems (model: UvModel.Async, invariants: UvModel.Lemmas.AsyncLemmas*)
 
@@ -113,7 +113,8 @@ example : let s := run (init 2 2) [.begin 0 1, .snd 0, .snd 0, .snd 0]
   intro h' r; rw [hl]; constructor <;> simp
 
 /-- FULL liveness statement: the same without `noClosePc s`, i.e. also when `s` is in the middle of a uv_close of
-ANOTHER handle (loop thread parked in uv__async_spin).  NOT proved: the measure needs one more component for that
+ANOTHER handle (loop thread parked in uv__async_spin).  PROVED below (`send_then_callback_liveness_full_holds`,
+Lemmas/AsyncLemmas5); the plan that was followed: the measure needs one more component for that
 phase (Σ over the senders inside uv_async_send on the handle being closed of their remaining steps — finite because
 no new send can begin on a closing handle — and the helpful thread there is a sender inside the busy section,
 `close_waits_for_critical_section` / `no_deadlock_while_owing`), and `rankL` must be extended through
@@ -223,5 +224,99 @@ example : ReachC (run (init 1 1) [.begin 0 0, .snd 0, .close 0, .loop, .loop, .s
   match t, hx with
   | 0, hx => simp [init, setSnd, setH, upd, LRet.toPc] at hx; subst hx; simp at hp
   | t + 1, hx => simp [init, setSnd, setH, upd, LRet.toPc] at hx
+
+/-! ## full-strength liveness (start state may be in the middle of a uv_close) -/
+
+/-- The FULL liveness statement holds: from EVERY reachable state in which an open handle `h` has a send owed —
+including the states in which the loop thread is parked inside uv__async_spin(h') for another handle h', before the
+`atomic_store(pending, 1)` or spinning on `busy` — every weakly fair continuation without further uv_close / fork
+starts the callback of `h`.  Close phase: `nu` = Σ over the senders inside uv_async_send(h') of their remaining
+steps + 2/1 for closeStore/closeSpin.  No send can begin on a closing handle (`step? (.begin ..)` requires
+`closing = false`, the documented contract), so sender steps never increase it; a sender inside uv_async_send(h') is
+helpful while there is one, afterwards busy(h') = 0 (`InvB.busyEq`) and the loop thread is helpful: the spin ends in a
+state outside uv__async_spin with the callback of `h` still owed, where `liveness_aux` (measure `mu`) takes over. -/
+theorem send_then_callback_liveness_full_holds : send_then_callback_liveness_full := by
+  intro s hr h hp ho σ hσ hσf fairL fairS
+  have hσ' : ∀ n, notClose (σ n) := by
+    intro n; have := hσ n; have hf := hσf n; cases hn : σ n <;> simp [notClose]
+    · exact absurd hn (this _)
+    · exact absurd hn hf
+  exact liveness_full_aux σ hσ' s h (inv_reachable hr) hp ho fairL fairS
+
+/-- usable form of the same -/
+theorem send_then_callback_liveness_any_state {s : State} (hr : Reachable s) (h : Nat)
+    (hp : (s.hs h).pending ≠ 0) (ho : (s.hs h).closing = false)
+    (σ : Nat → Act) (hσ : ∀ n h', σ n ≠ .close h') (hσf : ∀ n, σ n ≠ .fork)
+    (fairL : ∀ n, ∃ m, m ≥ n ∧ σ m = .loop)
+    (fairS : ∀ n t, t < s.snd.length → ∃ m, m ≥ n ∧ σ m = .snd t) :
+    ∃ n, ((runN σ n s).hs h).cbs > (s.hs h).cbs :=
+  send_then_callback_liveness_full_holds s hr h hp ho σ hσ hσf fairL fairS
+
+/-- The spin itself terminates under weak fairness: from every reachable state in which the loop thread is inside
+uv__async_spin(h') (so uv_close never hangs on in-flight senders) some later state has left it — stated for the case
+the theorem needs (a callback of `h` owed); `j` is the first state outside the spin reached by the argument. -/
+theorem close_spin_terminates {s : State} (hr : Reachable s) (h h' : Nat) (r : LRet)
+    (hl : s.lpc = .closeStore h' r ∨ s.lpc = .closeSpin h' r)
+    (hp : (s.hs h).pending ≠ 0) (ho : (s.hs h).closing = false)
+    (σ : Nat → Act) (hσ : ∀ n h', σ n ≠ .close h') (hσf : ∀ n, σ n ≠ .fork)
+    (fairL : ∀ n, ∃ m, m ≥ n ∧ σ m = .loop)
+    (fairS : ∀ n t, t < s.snd.length → ∃ m, m ≥ n ∧ σ m = .snd t) :
+    ∃ j, noClosePc (runN σ j s) ∧ ((runN σ j s).hs h).pending ≠ 0 ∧ ((runN σ j s).hs h).cbs = (s.hs h).cbs := by
+  have hσ' : ∀ n, notClose (σ n) := by
+    intro n; have := hσ n; have hf := hσf n; cases hn : σ n <;> simp [notClose]
+    · exact absurd hn (this _)
+    · exact absurd hn hf
+  obtain ⟨j, hj⟩ := spin_ends σ hσ' s h (s.hs h).cbs h' r fairL fairS (nu s h') 0 (by simp [runN])
+    (by simpa [runN] using (⟨inv_reachable hr, hp, ho, rfl, hl⟩ : OwedC s h (s.hs h).cbs h' r))
+  exact ⟨j, hj.pc, hj.pend, hj.cnt⟩
+
+/-- non-vacuous, the new case: sender 0 is inside the busy section of handle 1 (after its fetch_add, before the
+exchange), sender 1 has completed a send on handle 0 (pending = 1, eventfd = 1), the loop thread called uv_close(1) and is
+parked in the spin loop with busy(1) = 1: the loop thread cannot step (`step? s .loop = none`), `noClosePc` fails, a
+callback of handle 0 is owed. -/
+example : let s := run (init 2 2) [.begin 0 1, .snd 0, .snd 0, .begin 1 0, .snd 1, .snd 1, .snd 1, .snd 1, .snd 1,
+                                   .close 1, .loop]
+    (s.hs 0).pending ≠ 0 ∧ (s.hs 0).closing = false ∧ s.lpc = .closeSpin 1 .idle ∧ (s.hs 1).busy = 1 ∧
+    (step? s .loop).isNone = true ∧ rem s 1 = 3 ∧ nu s 1 = 4 := by decide
+
+/-- ... and a fair continuation from it: the in-flight sender leaves uv_async_send(1), the spin ends, the loop drains the
+eventfd and the callback of handle 0 runs (handle 1 gets none: it is unlinked) -/
+example : let s := run (init 2 2) [.begin 0 1, .snd 0, .snd 0, .begin 1 0, .snd 1, .snd 1, .snd 1, .snd 1, .snd 1,
+                                   .close 1, .loop, .loop, .snd 0, .snd 0, .loop, .snd 0, .loop, .loop, .loop, .loop]
+    (s.hs 0).cbs = 1 ∧ (s.hs 1).cbs = 0 ∧ (s.hs 1).unlinked = true ∧ (s.hs 0).seen = 1 := by decide
+
+/-! ## coalescing bounds, callback entry -/
+
+/-- #callbacks(h) ≤ #effective (0→1) exchanges(h) ≤ #uv_async_send calls begun on h: coalescing only ever merges sends,
+it never invents a callback; with `send_then_callback` / the liveness theorem (≥ 1 callback after a burst) this
+brackets the callback count from both sides. -/
+theorem coalescing_bound {s : State} (hr : Reachable s) (h : Nat) :
+    (s.hs h).cbs ≤ (s.hs h).x01 ∧ (s.hs h).x01 ≤ (s.hs h).pub := by
+  refine ⟨cb_only_after_send hr h, ?_⟩
+  have := sendsLe_reachable hr h
+  omega
+
+/-- both inequalities can be strict at once: three sends begun, the third still before its exchange, the first two
+coalesced into one effective exchange, whose callback has not started yet -/
+example : let s := run (init 1 3) [.begin 0 0, .snd 0, .snd 0, .snd 0, .begin 1 0, .snd 1, .begin 2 0]
+    (s.hs 0).cbs = 0 ∧ (s.hs 0).x01 = 1 ∧ (s.hs 0).pub = 3 := by decide
+
+/-- The callback is entered with the flag already cleared and having observed every send begun so far: the only
+transition that changes a callback count is the loop thread's `atomic_exchange(&h->pending, 0)` having returned
+non-zero (async.c:202-208); right after it pending(h) = 0, exactly one callback was added, `seen = pub`, and the
+eventfd was not touched (it was drained before the scan started).  A send arriving during the callback therefore
+finds pending = 0, takes the slow path and writes the eventfd again (`no_lost_wakeup`). -/
+theorem callback_entry {s s' : State} {a : Act} {h : Nat} (hs : step? s a = some s')
+    (hc : (s'.hs h).cbs ≠ (s.hs h).cbs) :
+    a = .loop ∧ s.lpc = .scan h ∧ (s.hs h).pending ≠ 0 ∧ s'.lpc = .inCb h ∧ (s'.hs h).pending = 0 ∧
+    (s'.hs h).cbs = (s.hs h).cbs + 1 ∧ (s'.hs h).seen = (s'.hs h).pub ∧ s'.efd = s.efd := by
+  by_cases ha : a = .loop
+  · subst ha; exact ⟨rfl, cb_start_step hs hc⟩
+  · exact absurd (cbs_only_loop hs ha h) hc
+
+/-- non-vacuous: the step that starts the callback of handle 0 -/
+example : let s := run (init 1 1) [.begin 0 0, .snd 0, .snd 0, .snd 0, .snd 0, .snd 0, .loop, .loop]
+    s.lpc = .scan 0 ∧ (s.hs 0).pending = 1 ∧ ((step s .loop).hs 0).cbs = 1 ∧ ((step s .loop).hs 0).pending = 0 ∧
+    (step? s .loop).isSome = true := by decide
 
 end UvModel.Props.C09
